@@ -1,6 +1,7 @@
 """model.json -> Coq terms of Model/Evolution.v: every type expanded (aliases and generic instantiations resolved away,
 records and enums inline under their qualified names).  Harness side of the C05/C06 tie."""
 import json
+import re
 
 PRIMS = {"bool": "PBool", "int8": "PInt8", "uint8": "PUint8", "int16": "PInt16", "uint16": "PUint16", "int32": "PInt32",
          "uint32": "PUint32", "int64": "PInt64", "uint64": "PUint64", "size": "PSize", "float32": "PFloat32", "float64": "PFloat64",
@@ -110,6 +111,11 @@ class Env:
         bp = "PInt32"
         if base is not None:
             b = self.expand(base, {}, depth + 1)[0]
+            while b.startswith("(EAlias "):          # a base given through a named alias of the primitive
+                m_ = re.match(r"\(EAlias \[[^\]]*\] (.*)\)$", b)
+                if not m_:
+                    break
+                b = m_.group(1)
             if not b.startswith("(EPrim "):
                 raise Unknown("enum base " + b)
             bp = b[len("(EPrim "):-1]
